@@ -103,6 +103,7 @@ func genStop(c *ctx) {
 		rng := rand.New(rand.NewSource(c.rng.Int63()))
 		cfg := e2eCfg{upload: b%2 == 0, binary: (b/2)%2 == 0, directory: b%3 == 0, overwrite: b%4 == 1 || b%3 == 0, proto: []int{-1, 2, 0, 4, 3}[b%5],
 			timeout: 5, quiet: b%2 == 1, bufsize: "4k", deadline: 30 * time.Second}
+		cfg.tunnel = b%3 == 1 // the transfer runs over a direct tunnel connection (loopback TCP)
 		tops := stopTree(rng, root, cfg.directory)
 		counts := baselineCounts(cfg, tops, root)
 		per := c.pick(10, 80)
@@ -196,6 +197,15 @@ func genStop(c *ctx) {
 			s.outcome = stopped
 		default:
 			s.outcome = "error"
+		}
+		if s.del && !stopAt.IsZero() && s.outcome == "Stopped" && s.who != "server" && res.clientDone && res.serverExited {
+			// the user chose stop-and-delete but what is shown is a plain "Stopped": was anything left behind?
+			for k := range after {
+				if _, ok := before[k]; !ok {
+					s.bad = append(s.bad, "delete-not-honoured: shown \"Stopped\" after a stop-and-delete, left behind "+k)
+					break
+				}
+			}
 		}
 		if !stopAt.IsZero() && s.dur > 8*time.Second {
 			s.bad = append(s.bad, fmt.Sprintf("slow-stop: both sides needed %.1fs after the stop", s.dur.Seconds()))
@@ -319,7 +329,7 @@ func genHang(c *ctx) {
 		res      e2eResult
 	}
 	var cases []*hc
-	kinds := []string{"silence", "discard-one", "close-stdin", "source-shrinks", "source-unreadable", "dest-readonly", "silence-pause-resume"}
+	kinds := []string{"silence", "discard-one", "close-stdin", "source-shrinks", "source-unreadable", "dest-readonly", "silence-pause-resume", "cut-mid-write"}
 	nb := c.pick(6, 16)
 	const timeout = 2
 	for b := 0; b < nb; b++ {
@@ -382,6 +392,12 @@ func genHang(c *ctx) {
 			}
 			switch h.kind {
 			case "silence":
+				return e2eAction{silence: true, drop: true}
+			case "cut-mid-write":
+				// the connection dies in the middle of a message: half of this write arrives, then nothing
+				if len(b) > 1 {
+					return e2eAction{data: [][]byte{b[:len(b)/2]}, silence: true}
+				}
 				return e2eAction{silence: true, drop: true}
 			case "silence-pause-resume":
 				// the peer falls silent; while a read is pending the user pauses and resumes
